@@ -322,6 +322,9 @@ class StateDom(object):
                 name, fr = sub.id, sfr
             if name == 'self' and fr is not None and fr.func is not None:
                 return fr.func.cls
+            if fr is not None and fr.parent is None and \
+                    name in getattr(self, '_types', {}):
+                return self._types[name]
         return None
 
     def _property(self, e, env, frame):
@@ -412,7 +415,8 @@ class StateDom(object):
 
     # ---- dataflow -----------------------------------------------------
     def analyze(self, cfg, func, variables, init=None, kill=None,
-                assume=None, alias=None, block=None, ghost=None):
+                assume=None, alias=None, block=None, ghost=None,
+                types=None):
         """Forward dataflow.  variables: list of (key, domain) where key is
         the dotted text of an access path / local name in `func`.
         Returns {node.id: set(valuation tuples)} (valuations before the
@@ -422,6 +426,9 @@ class StateDom(object):
         doms = [tuple(d) for _k, d in variables]
         self._ghost = set(ghost or ())
         self._alias = dict(alias or {})
+        # {local name: class} for receivers whose class is known by the
+        # repository's conventions (e.g. `task` is an engine Task)
+        self._types = dict(types or {})
         self._textkeys = any(('(' in k or '[' in k or ' ' in k)
                              for k in keys) or bool(self._alias)
         frame = Frame(func.module, {}, None, func)
